@@ -57,4 +57,28 @@ C17_SAMPLE = dict(
             ("thin must be set", 5), ("model must be one of", 6)],
 )
 
-ALL = [C16_FILTER, C17_SAMPLE]
+# C11 / C13: the wrappers of every retrospective generator / smoother (core.py).  `f` is the abstract method
+# (self._generate_plates / self._smooth_plates): ANY function of the screen and the unread recorded answers `ds`.
+_C11_WRAP = dict(
+    file="src/batchie/core.py", out="SrcRetro.v", imports="Model.Retro",
+    pyparams=["self", "screen", "rng"],
+    params=[("f", "inner"), ("screen", "screen_t"), ("ds", "list draw")],
+    returns="screen_t", return_state=["ds"],
+    vars={"unobserved_subset": "opt subset_t", "observed_subset": "opt subset_t",
+          "new_unobserved_subset": "screen_t", "combined_screen": "screen_t"},
+    prims=[
+        ("__s.subset_unobserved()", "subset_unobserved {s}", "opt subset_t", {"s": "screen_t"}),
+        ("__s.subset_observed()", "subset_observed {s}", "opt subset_t", {"s": "screen_t"}),
+        ("__s.to_screen()", "to_screen {s}", "screen_t", {"s": "subset_t"}),
+        ("__a.combine(__b)", "!combine_screens {a} {b}", "screen_t", {"a": "screen_t", "b": "screen_t"}),
+    ],
+    ignore=["logger.warning(__a)"],
+)
+C11_GENERATE_PLATES = dict(
+    _C11_WRAP, cls="RetrospectivePlateGenerator", func="generate_plates", name="src_generate_plates",
+    state_calls=[("self._generate_plates(__s, rng)", ["ds"], "f {s} ds", "screen_t", {"s": "screen_t"})])
+C11_SMOOTH_PLATES = dict(
+    _C11_WRAP, cls="RetrospectivePlateSmoother", func="smooth_plates", name="src_smooth_plates",
+    state_calls=[("self._smooth_plates(__s, rng)", ["ds"], "f {s} ds", "screen_t", {"s": "screen_t"})])
+
+ALL = [C16_FILTER, C17_SAMPLE, C11_GENERATE_PLATES, C11_SMOOTH_PLATES]
